@@ -4,6 +4,7 @@ import (
 	"context"
 	"flag"
 	"fmt"
+	"sync"
 	"time"
 
 	"github.com/itchyny/gojq"
@@ -46,102 +47,89 @@ func nextSeq(code *gojq.Code, v any, maxN int, budget time.Duration) (seq []any,
 	}
 }
 
-// cmdOptCmp: cases {id, src, inputs:[V], masks:[int]} -> {id, src, configs:[{mask, cerr|panic|runs:[{seq,long,panic}]}]}
+// cmdOptCmp: cases {id, src, inputs:[V], masks:[int]} -> {id, src, configs:[{mask, cerr|panic|runs:[{seq,long,panic,hang}]}]}
 func cmdOptCmp(args []string) error {
 	fs := flag.NewFlagSet("optcmp", flag.ExitOnError)
 	in := fs.String("in", "", "cases ndjson")
 	out := fs.String("out", "", "results ndjson")
 	fs.Parse(args)
-	var cases []map[string]any
-	if err := readNDJSON(*in, func(c map[string]any) error { cases = append(cases, c); return nil }); err != nil {
-		return err
-	}
-	type compiled struct {
-		mask  int
-		code  *gojq.Code
-		cerr  string
-		panic string
-	}
-	recs := make([]vlib.M, len(cases))
-	codes := make([][]compiled, len(cases))
-	// compile sequentially (the switch mask is process-wide), run in parallel
-	for i, c := range cases {
-		recs[i] = vlib.M{"id": c["id"], "src": c["src"]}
+	// progress of the case each worker is on, so that a hang can be attributed to (mask, input)
+	var mu sync.Mutex
+	progress := map[any]*[]any{}
+	runCase := func(c map[string]any, beat func()) map[string]any {
+		rec := vlib.M{"id": c["id"], "src": c["src"]}
 		q, err := gojq.Parse(c["src"].(string))
 		if err != nil {
-			recs[i]["perr"] = err.Error()
-			continue
-		}
-		for _, m := range c["masks"].([]any) {
-			cc := compiled{mask: int(m.(float64))}
-			func() {
-				defer func() {
-					if e := recover(); e != nil {
-						cc.panic = fmt.Sprint(e)
-					}
-					gojq.VerifOptMask = 0
-				}()
-				gojq.VerifOptMask = uint(cc.mask)
-				code, err := gojq.Compile(q)
-				if err != nil {
-					cc.cerr = err.Error()
-				}
-				cc.code = code
-			}()
-			codes[i] = append(codes[i], cc)
-		}
-	}
-	parallel(len(cases), 8, func(i int) {
-		if codes[i] == nil {
-			return
+			rec["perr"] = err.Error()
+			return rec
 		}
 		cfgs := []any{}
-		for _, cc := range codes[i] {
-			cfg := vlib.M{"mask": cc.mask}
-			switch {
-			case cc.panic != "":
-				cfg["panic"] = cc.panic
-			case cc.cerr != "":
-				cfg["cerr"] = cc.cerr
-			default:
-				runs := []any{}
-				for _, iv := range cases[i]["inputs"].([]any) {
-					var seq []any
-					var long, pollsOut bool
-					var p string
-					var polls int
-					if watchdog(6*time.Second, func() {
-						seq, long, p, polls, pollsOut = nextSeq(cc.code, vlib.DecVal(iv, vlib.RepNative), 300, time.Second)
-					}) {
-						runs = append(runs, vlib.M{"seq": []any{}, "hang": true, "long": true})
-						continue
+		mu.Lock()
+		progress[c["id"]] = &cfgs
+		mu.Unlock()
+		for _, m := range c["masks"].([]any) {
+			cfg := vlib.M{"mask": int(m.(float64))}
+			var code *gojq.Code
+			func() {
+				tracerMu.Lock() // the switch mask is process-wide
+				defer func() {
+					if e := recover(); e != nil {
+						cfg["panic"] = fmt.Sprint(e)
 					}
-					r := vlib.M{"seq": seq, "polls": polls}
-					if pollsOut {
-						r["polls_out"] = true
-					}
-					if long {
-						r["long"] = true
-					}
-					if p != "" {
-						r["panic"] = p
-					}
-					runs = append(runs, r)
+					gojq.VerifOptMask = 0
+					tracerMu.Unlock()
+				}()
+				gojq.VerifOptMask = uint(int(m.(float64)))
+				var err error
+				if code, err = gojq.Compile(q); err != nil {
+					cfg["cerr"] = err.Error()
 				}
-				cfg["runs"] = runs
-			}
+			}()
+			runs := []any{}
+			cfg["runs"] = runs
+			mu.Lock()
 			cfgs = append(cfgs, cfg)
+			mu.Unlock()
+			if code == nil || cfg["panic"] != nil || cfg["cerr"] != nil {
+				delete(cfg, "runs")
+				continue
+			}
+			for _, iv := range c["inputs"].([]any) {
+				cur := vlib.M{"seq": []any{}, "hang": true, "long": true} // replaced when the run returns
+				mu.Lock()
+				runs = append(runs, cur)
+				cfg["runs"] = runs
+				mu.Unlock()
+				beat()
+				seq, long, p, polls, pollsOut := nextSeq(code, vlib.DecVal(iv, vlib.RepNative), 300, time.Second)
+				r := vlib.M{"seq": seq, "polls": polls}
+				if pollsOut {
+					r["polls_out"] = true
+				}
+				if long {
+					r["long"] = true
+				}
+				if p != "" {
+					r["panic"] = p
+				}
+				mu.Lock()
+				runs[len(runs)-1] = r
+				mu.Unlock()
+			}
 		}
-		recs[i]["configs"] = cfgs
+		mu.Lock()
+		delete(progress, c["id"])
+		mu.Unlock()
+		rec["configs"] = cfgs
+		return rec
+	}
+	return runBatch(*in, *out, 8, 7*time.Second, runCase, func(c map[string]any) map[string]any {
+		mu.Lock()
+		defer mu.Unlock()
+		rec := vlib.M{"id": c["id"], "src": c["src"], "partial": true}
+		if p := progress[c["id"]]; p != nil {
+			rec["configs"] = *p
+		}
+		return rec
 	})
-	w, err := newNDWriter(*out)
-	if err != nil {
-		return err
-	}
-	for _, r := range recs {
-		if err := w.write(r); err != nil {
-			return err
-		}
-	}
-	return w.close()
 }
